@@ -541,7 +541,7 @@ pub fn handle<'a>(
             }
             if let Some(out_matches) = matches.subcommand_matches(CMD_OUT) {
                 if let Some(delete_matches) = out_matches.subcommand_matches(CMD_DELETE) {
-                    return handle_out_delete(&config, delete_matches, output_options);
+                    return handle_out_delete(&config, delete_matches, output_options, work_path);
                 }
             }
             Err(MonorailError::from("Command not recognized"))
@@ -554,6 +554,7 @@ fn handle_out_delete<'a>(
     config: &'a core::Config,
     matches: &'a ArgMatches,
     output_options: &OutputOptions<'a>,
+    work_path: &'a path::Path,
 ) -> Result<i32, MonorailError> {
     let rt = Runtime::new()?;
     let _guard =
@@ -561,7 +562,10 @@ fn handle_out_delete<'a>(
     #[cfg(pnordahl_monorail_verif)]
     crate::verif::point("after_lock_out_delete");
     let i = app::out::OutDeleteInput::try_from(matches)?;
-    let res = app::out::out_delete(&config.out_dir, &i);
+    // out_dir is relative to the configuration file's directory, as for every other command
+    // (not to the directory the process happens to be started in)
+    let out_dir = work_path.join(&config.out_dir);
+    let res = app::out::out_delete(&out_dir.to_string_lossy(), &i);
     write_result(&res, output_options)?;
     Ok(get_code(res.is_err()))
 }
